@@ -22,10 +22,10 @@ Definition repaired : fixes := FX true true true.
 (* ---------- GraphInline::change_key ------------------------------------------------------- *)
 
 (* `self.is_ref() && self.ref_key().map_or(false, |key| key.eq(target_key))`:
-   the key of an inline link is `Key::from_file_name(url)` — the url without `.md`, NOT
-   resolved against the directory of the note that holds the link *)
+   the key of an inline link is `Key::name(url)` — the url as the reader left it (one `.md` taken
+   off), NOT resolved against the directory of the note that holds the link *)
 Definition link_hits (old url : string) : bool :=
-  is_ref_url url && String.eqb (key_from_file_name url) old.
+  is_ref_url url && String.eqb (key_name url) old.
 
 (* Emph/Strong/Strikeout are mapped; a link is rewritten as a whole (its text is not
    visited); `_ => self.clone()` covers Image, whose text is therefore not visited either *)
@@ -65,13 +65,13 @@ Fixpoint change_key_tree (fx : fixes) (old new : string) (t : tree) : tree :=
    `get_block_references_to(key) ++ get_inline_references_to(key)` mapped to the owning notes.
    After `Graph::import` the index holds, for every arena node: a Reference node under its
    key; a Section/Leaf node under every `ref_keys()` of its line (graph.rs:211-246: through
-   Emph/Strong/Strikeout and Image texts, a Link under `from_file_name(url)` whether or not it
+   Emph/Strong/Strikeout and Image texts, a Link under `Key::name(url)` whether or not it
    is a note link); nothing for Table nodes (index.rs).  Modelled on the collected tree (title
    refresh does not touch urls), valid for a freshly imported library. *)
 Fixpoint inline_ref_keys (i : inline) : list string :=
   match i with
   | Emph l | Strong l | Strike l => flat_map inline_ref_keys l
-  | Link url _ _ _ => [key_from_file_name url]
+  | Link url _ _ _ => [key_name url]
   | Image _ _ l => flat_map inline_ref_keys l
   | _ => []
   end.
@@ -201,7 +201,9 @@ Definition rename_core (fx : fixes) (o : opts) (scan : scan_t) (L : tlib) (doc :
               do overrides <- fold_right (fun k acc => do r <- acc; do t <- export k; Ok (OpOverride k t :: r))
                                          (Ok []) aff_keys;
               do new_text <- export new_key;
-              Ok (REdits (overrides ++ [OpDelete key; OpCreate new_name; OpInsert new_name new_text]))
+              (* name_to_url (server.rs:68-71): the name as typed, without its one `.md` (strip_md) *)
+              let stem := strip_md new_name in
+              Ok (REdits (overrides ++ [OpDelete key; OpCreate stem; OpInsert stem new_text]))
           end
       end
   end.
@@ -310,7 +312,7 @@ Fixpoint tree_occs (t : tree) : list occ :=
 Definition occ_key (o : occ) : option string :=
   match o with
   | OBlock k _ _ => Some k
-  | OInline url _ _ _ => if is_ref_url url then Some (key_from_file_name url) else None
+  | OInline url _ _ _ => if is_ref_url url then Some (key_name url) else None
   end.
 
 Definition occ_hits (old : string) (o : occ) : bool :=
